@@ -83,6 +83,12 @@ CHECKS.update({
          'All histories up to depth 5 (thorough 6) of open, vote (approve / reject / garbage) by the super admin, the next normal admin (normal admins are symmetric), the same admin again, an outsider, a frozen admin, withdraw by proposer / other, and an approved freeze of an admin before or while a proposal is open, for admin sets {1 super+3, 1 super+2, 2 super+2} x strategies {a>0.5t, a>=t, a>=2, a>=1, a>0.5t&&r<2} x proposal kinds {node registration, admin registration (special), appchain freeze (special)}; after each step receipt verdict, status, tallies/ballots and the governed object are compared with the model (govaluate on a, r, t, available electors).',
          'one explored proposal at a time per history (plus the freeze proposal); priority locking between proposals on one object is exercised in C16', '5 C15'),
 })
+CHECKS.update({
+ 'C20': ('ordermc', 'model_checking',
+         'exhaustive enumeration of sync ranges, choice-point DFS over peer picks x fault patterns of the real state syncer, and explicit-state BFS over the raft node\'s real apply path for every short committed log',
+         'A: calcRangeHeight for all begin,end in 0..28 (thorough 0..40) x fetch 1..8 must partition [begin,end] in ascending ranges. B: real SyncCFTBlocks for every pattern of <=2 injected fetch failures and every sequence of (seamed) random peer picks must emit each height once, ascending. C: the real etcdraft.Node apply path (entriesToApply, publishEntries, mint, reportState, persisted applied index, real mempool) under all interleavings of {raft hands over the next 1/2/all entries or re-delivers from index 1, executor reports, crash+restart at the executor\'s durable height} for every committed log of length 4 (thorough 5) over entry heights {empty,2,3,4}: delivered heights consecutive, an executed height never delivered again, no unexecuted entry skipped.',
+         'PARTIAL: the etcd raft library (which entries are committed, in which order, on which replica) is trusted; leader election, message loss/duplication/reordering between replicas, snapshots/compaction and the solo orderer\'s goroutine pipeline are not explored (building the event-by-event 3-replica harness was not completed); batch contents/sequence numbers on the proposing side are covered by C18', '5 C20'),
+})
 REASON_WIP = 'check not built yet (work in progress; see DESIGN.md section 10)'
 def main():
     checks = []
@@ -118,6 +124,7 @@ def main():
             {'name': 'poolmc', 'path': 'harness/checks/pool.go', 'serves_properties': ['C18', 'C19'], 'kind_free_text': 'explicit-state BFS over the real mempool'},
             {'name': 'probemc', 'path': 'harness/checks/probe.go', 'serves_properties': ['C03', 'C07', 'C08', 'C17'], 'kind_free_text': 'exhaustive probe product with differential oracle, sharded over worker subprocesses'},
             {'name': 'govmc', 'path': 'harness/checks/c15.go', 'serves_properties': ['C15'], 'kind_free_text': 'explicit-state BFS over governance histories'},
+            {'name': 'ordermc', 'path': 'harness/checks/c20.go', 'serves_properties': ['C20'], 'kind_free_text': 'range enumeration + choice-point DFS over the real syncer + BFS over the real raft apply path'},
             {'name': 'enum', 'path': 'harness/checks/c10.go', 'serves_properties': ['C10'], 'kind_free_text': 'bounded-exhaustive enumeration'},
         ],
         'checks': checks,
